@@ -6,6 +6,7 @@ package props
 // and on the reference interpreter; states are merged on the reference model's abstract state.
 
 import (
+	"context"
 	"fmt"
 	"sort"
 	"strings"
@@ -381,8 +382,8 @@ func c06Suspended(r *harness.Run) {
 	if th {
 		order = append(order, "F-cond")
 	}
-	gens := map[string]Gen{"F-yieldacross": genYieldAcross(), "F-hostbody": genHostBody()}
-	names := []string{"F-yieldacross", "F-hostbody"}
+	gens := map[string]Gen{"F-yieldacross": genYieldAcross(), "F-hostbody": genHostBody(), "F-cochain": genCoChain()}
+	names := []string{"F-yieldacross", "F-hostbody", "F-cochain"}
 	for _, n := range order {
 		gens["S1/"+n] = mapGen(base[n], "S1/", suspendAtEmit(false))
 		names = append(names, "S1/"+n)
@@ -392,6 +393,19 @@ func c06Suspended(r *harness.Run) {
 		}
 	}
 	pr.runGens(gens, names)
+	// the coroutine-centred families once more on states that carry a live (never cancelled)
+	// context: coroutines created at any depth behave the same
+	ctx, cancel := context.WithCancel(context.Background())
+	defer cancel()
+	pc := c03Runner(r)
+	pc.prop = "C06"
+	pc.sigPrefix = "livectx/"
+	inner := pc.extraI
+	pc.extraI = func(m *glrun.Impl) {
+		inner(m)
+		m.L.SetContext(ctx)
+	}
+	pc.runGens(map[string]Gen{"F-cochain": genCoChain(), "F-hostbody": genHostBody(), "F-yieldacross": genYieldAcross(), "F-closure": genClosure(false)}, []string{"F-cochain", "F-hostbody", "F-yieldacross", "F-closure"})
 }
 
 func envInt(name string) int {
